@@ -1483,6 +1483,18 @@ impl ListenerHandler for TcpListener {
     }
 }
 
+#[cfg(sozu_verif)]
+impl TcpListener {
+    /// Verification hook (add-only): the private constructor, so an
+    /// in-process driver can call `into_pipe` of the PROXY-protocol states.
+    pub fn new_for_verif(
+        config: TcpListenerConfig,
+        token: Token,
+    ) -> Result<TcpListener, ListenerError> {
+        TcpListener::new(config, token)
+    }
+}
+
 impl TcpListener {
     fn new(config: TcpListenerConfig, token: Token) -> Result<TcpListener, ListenerError> {
         Ok(TcpListener {
